@@ -57,10 +57,13 @@ def main():
     env = dict(os.environ, VERIF_REPO=MUT)
     try:
         for name, patch, props in items:
-            sh(["git", "checkout", "--", "."], cwd=MUT); sh(["git", "clean", "-fdq"], cwd=MUT)
+            sh(["git", "reset", "--hard", "-q", head], cwd=MUT); sh(["git", "clean", "-fdq"], cwd=MUT)
             rc, o = sh(["git", "apply", patch], cwd=MUT)
             if rc != 0:
                 rc, o = sh(["git", "apply", "-3", patch], cwd=MUT)
+                if rc != 0 or "<<<<<<<" in sh(["git", "diff"], cwd=MUT)[1]:
+                    rc = 1
+                    sh(["git", "reset", "--hard", "-q", head], cwd=MUT)
             if rc != 0:
                 matrix[name] = {"applies": False, "note": o[-300:]}
                 print("%-45s does not apply to HEAD" % name); continue
